@@ -2241,9 +2241,12 @@ func (pid *PID) cancelInFlightRequests(reason error) {
 		}
 		state.stopTimeoutIfSet()
 	}
-
-	reentrant.inFlightCount.Store(0)
-	reentrant.blockingCount.Store(0)
+	// The counters are not zeroed here: every state this loop won was already
+	// subtracted above, and a state it skipped was completed by the processing
+	// turn, which still owns its deregistration (and decrement). Storing zero
+	// while that turn sits between requestState.complete and
+	// deregisterRequestState drove both counters to -1. Stopping actors are
+	// zeroed by reentrancyState.reset.
 }
 
 // markActivity updates the last receive timestamp and notifies the shared passivation manager.
